@@ -78,7 +78,7 @@ fn cid_of(x: u64) -> Cid {
 
 async fn model_run<S: Store, F: std::future::Future<Output = S>>(label: &str, mk: impl Fn() -> F) {
     let seed: u64 = std::env::var("VERIF_SEED").ok().and_then(|s| s.parse().ok()).unwrap_or(0);
-    let rounds: u64 = std::env::var("VERIF_ROUNDS").ok().and_then(|s| s.parse().ok()).unwrap_or(40);
+    let rounds: u64 = std::env::var(if label == "redb" { "VERIF_REDB_ROUNDS" } else { "VERIF_ROUNDS" }).ok().and_then(|s| s.parse().ok()).unwrap_or(40);
     let mut ops = 0u64;
     for round in 0..rounds {
         let mut rng = Rng(0x9E3779B97F4A7C15 ^ (seed.wrapping_mul(1000003)).wrapping_add(round + 1));
